@@ -32,6 +32,7 @@ META = {
 F7_KEY = "C05:failed-rollforward-leaves-state-root"
 NO0_KEY = "C05:blockno-zero-child-accepted"
 NIL_KEY = "C05:query-nil-deref-side-block-above-best"
+OWNGOV_KEY = "C05:abandoned-produced-block-leaks-staged-system-parameter"
 
 
 def corpus_cases():
@@ -62,9 +63,34 @@ def gen_cases(ctx):
             c["pre"] += ["ok"] * (len(c["arrivals"]) - len(c["pre"]))
             if "lib" in c:
                 c["lib"] += [c["lib"][-1]] * (len(c["arrivals"]) - len(c["lib"]))
+        if rng.random() < 0.3:             # governance: a DAO vote changes the gas price on some branch
+            cd.add_gov(rng, blocks)
         if rng.random() < 0.25:            # some blocks are handed over by the node's own block factory
             kind = {b["name"]: b.get("bad", "") for b in blocks}
-            c["own"] = [(kind[a] in ("", "root")) and rng.random() < 0.5 for a in c["arrivals"]]
+            gov = {b["name"] for b in blocks if b.get("gov")}      # (a produced block with a vote: corpus case 14, known finding)
+            c["own"] = [(kind[a] in ("", "root")) and a not in gov and rng.random() < 0.5 for a in c["arrivals"]]
+        if rng.random() < 0.3:             # consensus configuration: write-ahead log (raft), leader / follower / network deliveries
+            cd.add_wal(rng, c)
+        cases.append(c)
+    # consensus with a WAL on a linear chain (what raft produces): every block delivered as leader (own + pre-written),
+    # follower (pre-written, no block state) or from a peer / the syncer (not pre-written), some delivered twice
+    for j in range(12 if quick else 200):
+        ln = rng.choice([2, 3, 4, 5])
+        blocks = [{"name": "w%d" % k, "parent": ("w%d" % (k - 1)) if k else "G", "txs": cd.rnd_txs(rng, 1 if k == 0 else 0, 2),
+                   "bad": ""} for k in range(ln)]
+        if j % 3 == 0:
+            blocks[rng.randrange(ln)]["gov"] = 20
+        arr = [b["name"] for b in blocks]
+        kinds = [rng.choice(["leader", "follower", "net"]) for _ in arr]
+        if j % 4 == 1:
+            kinds = ["follower"] + ["net"] * (ln - 1)             # catch-up from a peer after the first WAL block
+        c = {"id": "wal%d" % j, "naccts": 3, "blocks": blocks, "arrivals": arr, "haswal": True,
+             "own": [k == "leader" and not blocks[i].get("gov") for i, k in enumerate(kinds)],
+             "wal": [k in ("leader", "follower") for k in kinds]}
+        c["wal"] = [w or o for w, o in zip(c["wal"], c["own"])]
+        if rng.random() < 0.5:
+            d = rng.randrange(ln)
+            c["arrivals"].append(arr[d]); c["own"].append(False); c["wal"].append(rng.random() < 0.5)
         cases.append(c)
     # structured two-branch families (reorg geometry)
     fam = []
@@ -112,7 +138,8 @@ def classify(case, out):
     for i, st in enumerate(out["steps"]):
         nm = st["arrive"]
         # P10: a block produced by the node itself that does not extend the current best block is stale: never stored
-        if st.get("own") and not preds and nm in out["blocks"]:
+        prewritten = bool(case.get("haswal") and st.get("wal"))     # the consensus WAL stored the body before the delivery
+        if st.get("own") and not preds and nm in out["blocks"] and not prewritten:
             before = prev["best"] if prev is not None else out["genesis"]["id"]
             was_stored = prev["stored"][nm] if prev is not None else False
             if out["blocks"][nm]["prev"] != before and not was_stored and st["stored"][nm]:
@@ -121,7 +148,8 @@ def classify(case, out):
         if transient and not preds:
             if st["bad"][nm]:
                 return "C05:transient-rejection-cached", "block %s rejected for a transient reason (%s) is put into errBlocks at step %d" % (nm, st["err"][:40], i)
-            if prev is not None and any(st[k] != prev[k] for k in ("best", "heights", "stored", "sdbroot", "orphans", "rawtx")):
+            keys = ("best", "heights", "sdbroot", "orphans") if prewritten else ("best", "heights", "stored", "sdbroot", "orphans", "rawtx")
+            if prev is not None and any(st[k] != prev[k] for k in keys):
                 return "C05:transient-rejection-mutates", "a transient rejection changed the node at step %d" % i
         prev = st
     if not preds:
@@ -137,6 +165,14 @@ def classify(case, out):
     if any((b.get("no") == 0) for b in case["blocks"]):
         return NO0_KEY, "block with BlockNo 0 whose parent is the tip is connected as main chain: " + preds[0][1]
     i0 = preds[0][0]
+    # P11/P12 after a block produced by the node itself, containing an effective DAO vote, was refused (stale)
+    govs = {b["name"] for b in case["blocks"] if b.get("gov")}
+    leaked = any(st.get("own") and st["arrive"] in govs and st["res"] == "err" for st in out["steps"][:i0 + 1])
+    if leaked and all(p.startswith("P11") or p.startswith("P12") for _, p in preds):
+        return OWNGOV_KEY, ("a block produced by the node itself executed a DAO vote (new value staged in contract/system), was "
+                            "then refused as stale, and nothing discarded the staged value: the next block connected commits it; "
+                            "the in-memory system parameters differ from the state and every later fee-paying block is rejected: "
+                            + preds[0][1])
     reorg_failed = any("reorg failed" in st["err"] for st in out["steps"][:i0 + 1])
     if reorg_failed and all(p.startswith("P6") or p.startswith("P7") for _, p in preds):
         return F7_KEY, "after a failed rollforward the state root stays inside the abandoned branch: " + preds[0][1]
@@ -157,7 +193,9 @@ def run(ctx):
     cases = corpus + gen_cases(ctx)
     outs = cd.run_engine(ctx, eng, cases, "c05")
     # model correspondence; corpus cases with forged ids are outside the model's hypothesis but still modelled
-    ok, bad, detail = cd.model_diff(ctx, cases, outs, f7_fixed, "c05cases")
+    mi = [i for i, c in enumerate(cases) if not c.get("nomodel")]      # "nomodel": reproduction of a known finding outside the model
+    ok, bad, detail = cd.model_diff(ctx, [cases[i] for i in mi], [outs[i] for i in mi], f7_fixed, "c05cases")
+    bad = [mi[i] for i in (bad or [])]
     corr_broken = None
     if not ok:
         corr_broken = ("model could not be evaluated", detail)
